@@ -288,7 +288,7 @@ func bBind(intp *Interpreter) error {
 	if !ok {
 		return intp.e(eTypecheck, "bind: needs a procedure, not %T", obj)
 	}
-	intp.bindProc(obj)
+	intp.bindProc(obj, make(map[*Object]bool))
 	return nil
 }
 
@@ -1405,7 +1405,19 @@ func integerEqualsReal(i Integer, r Real) bool {
 	return Integer(f) == i
 }
 
-func (intp *Interpreter) bindProc(proc Procedure) {
+// bindProc replaces executable names in proc (and in the procedures nested
+// in it) by the operators they are bound to.  The set seen holds the
+// procedures which have been visited already: procedures can contain
+// themselves, and can be shared between many other procedures.
+func (intp *Interpreter) bindProc(proc Procedure, seen map[*Object]bool) {
+	if len(proc) == 0 {
+		return
+	}
+	if seen[&proc[0]] {
+		return
+	}
+	seen[&proc[0]] = true
+
 	for i, elem := range proc {
 		switch obj := elem.(type) {
 		case Operator:
@@ -1420,7 +1432,7 @@ func (intp *Interpreter) bindProc(proc Procedure) {
 		case Procedure:
 			// be careful to avoid infinite loops
 			proc[i] = nil
-			intp.bindProc(obj)
+			intp.bindProc(obj, seen)
 			proc[i] = obj
 		}
 	}
